@@ -30,7 +30,7 @@
      wrap     what is done with the result          "plain" | "count" (count r) | "first" (take r 1) | "mapped" (map r {x -> x})
 
    The weight of a shape is its number of departures; TLC enumerates every shape up to a weight
-   budget (depth of the call tree: 1 + nested/partial/lambda levels <= 3).
+   budget (depth of the call tree: 1 + nested argument + callee form + use of the result <= 4).
 
    The behaviour part: a request is sent, the server answers.  The only answers the property allows
    are "value" and "error"; the harness observes the real answer (value, error, panic, timeout,
